@@ -417,4 +417,31 @@ theorem frame_entrywise (ms : List BMetric) (levels : List Nat) (tr : List TRow)
 example : ciAt 1 (.w (.sel 1)) [(0, ⟨0, 1, 1, 1, 1⟩), (1, ⟨0, 0, 1, 1, 1⟩), (1, ⟨1, 1, 0, 0, 1⟩)] [[2, 0, 1], [1, 1, 0]] [1/2] =
     ci true (.w (.sel 1)) [⟨0, 0, 1, 1, 1⟩, ⟨1, 1, 0, 0, 1⟩] [[1, 0], [0, 0]] [1/2] := by decide +kernel
 
+/-! ### review R2: vacuity witnesses for the control-feature / NaN theorems of section 7 -/
+
+/-- vacuity of `no_cross_talk_between_levels`: two data sets with the same control tags that differ ONLY in a row of
+    level 0 (label, prediction and group changed) — all hypotheses hold, and the level-1 CI is the same -/
+def ctA : List TRow := [(0, ⟨0, 1, 1, 1, 1⟩), (1, ⟨0, 0, 1, 1, 1⟩), (1, ⟨1, 1, 0, 0, 1⟩)]
+def ctB : List TRow := [(0, ⟨1, 0, 0, 0, 1⟩), (1, ⟨0, 0, 1, 1, 1⟩), (1, ⟨1, 1, 0, 0, 1⟩)]
+example : ctA.map (fun p => p.1) = ctB.map (fun p => p.1) := by decide +kernel
+theorem ct_rows : ∀ (i : Nat) (p q : TRow), ctA[i]? = some p → ctB[i]? = some q → p.1 = 1 → p.2 = q.2 := by
+  intro i p q h1 h2 hL
+  match i with
+  | 0 => simp [ctA] at h1; subst h1; simp at hL
+  | 1 => simp [ctA] at h1; simp [ctB] at h2; subst h1; subst h2; rfl
+  | 2 => simp [ctA] at h1; simp [ctB] at h2; subst h1; subst h2; rfl
+  | n + 3 => simp [ctA] at h1
+example : ciAt 1 (.w (.sel 1)) ctA [[2, 0, 1], [1, 1, 0]] [1/2] = ciAt 1 (.w (.sel 1)) ctB [[2, 0, 1], [1, 1, 0]] [1/2] :=
+  no_cross_talk_between_levels 1 (.w (.sel 1)) ctA ctB (by decide +kernel) ct_rows _ _
+/-- … and it is a statement with content: level 0 DOES change -/
+example : ciAt 0 (.w (.sel 1)) ctA [[2, 0, 1], [1, 1, 0]] [1/2] ≠ ciAt 0 (.w (.sel 1)) ctB [[2, 0, 1], [1, 1, 0]] [1/2] := by
+  decide +kernel
+/-- vacuity of `level_resample_is_filtered_resample`: positions in range, level 1 hit twice by [2, 0, 1] -/
+example : (∀ i ∈ ([2, 0, 1] : List Nat), i < ctA.length) ∧ restrict 1 ctA [2, 0, 1] = [1, 0] ∧
+    pick (levelRows 1 ctA) (restrict 1 ctA [2, 0, 1]) = some [⟨1, 1, 0, 0, 1⟩, ⟨0, 0, 1, 1, 1⟩] := by decide +kernel
+/-- vacuity of `nan_skipped_in_frames` (third clause) and `nan_propagates_in_series` on the same column -/
+example : finOnly (([.fin 1, .nan, .fin 3] : List XR).filter (fun x => !isNaN x)) = some [1, 3] ∧
+    quantileXR true [.fin 1, .nan, .fin 3] (1/2) = some (.fin 2) ∧
+    quantileXR false [.fin 1, .nan, .fin 3] (1/2) = some .nan := by decide +kernel
+
 end C18
